@@ -837,12 +837,66 @@ func phaseRandom(run *evid.Run, env *runEnv, variants, podsPer int) {
 	}
 }
 
+// coldBursts: the first requests a freshly started daemon serves, all at once. Each burst builds a new daemon whose
+// networks all live in conf-dir files (nothing of them is in JsonConf.NetworkConf), releases G goroutines from one
+// barrier, and each of them runs ADD + DEL for one pod over the real /cni handler. Whatever the daemon does on the
+// first resolution of a network (load, parse, remember) happens here under concurrency; the same sequence / status /
+// isolation monitors judge the requests and the race detector watches (C19 runs this binary race-built).
+func coldBursts(run *evid.Run, env *runEnv, shard, goroutines int, journal func(v interface{})) {
+	bursts := 4
+	for b := 0; b < bursts; b++ {
+		rng := run.Rng("c12-cold-cfg", shard*100+b)
+		cfg := genStaticConf(rng, confOpts{nNets: 6, distinctTypes: true, filesOnly: true})
+		pw := newPolWorld()
+		d, err := newDaemonPM(env, cfg, fmt.Sprintf("cold%d-%d", shard, b), pw.mk)
+		if err != nil {
+			run.Inconclusive("daemon (cold burst): " + err.Error())
+			return
+		}
+		journal(map[string]interface{}{"cold_burst": b, "config": cfg})
+		pw.pm.VerifFullSync()
+		start := make(chan struct{})
+		var wg sync.WaitGroup
+		for g := 0; g < goroutines; g++ {
+			wg.Add(1)
+			go func(g int) {
+				defer wg.Done()
+				k := &checker{run: run, env: env, d: d, rd: &logReader{path: env.logPath}, concurrent: true,
+					phase: "concurrent-cold-start", journal: journal}
+				idx := ((shard*100+b)*1000 + g) + 7000000
+				prng := run.Rng("c12-cold-pod", idx)
+				pod := genPod(prng, cfg, idx, podOpts{maxN: 4, forceForm: []string{"comma", "json"}[g%2]})
+				pod.NodeName = pw.host
+				c := k.newCtr(pod)
+				caseID := fmt.Sprintf("%d:cold:%d:%d:%d", run.Seed, shard, b, g)
+				if !k.ensurePod(c) {
+					return
+				}
+				<-start
+				if !k.do(c, "ADD", "eth0", nil, caseID) {
+					return
+				}
+				run.Count("cold_start_concurrent_adds", 1)
+				if !k.do(c, "DEL", "eth0", nil, caseID) {
+					return
+				}
+				k.drain(c, caseID)
+			}(g)
+		}
+		close(start)
+		wg.Wait()
+		run.Count("cold_start_bursts", 1)
+		d.close()
+	}
+}
+
 // runConcurrent is the body of a child process: G goroutines over one daemon whose networks (mostly) live in the
 // shared JsonConf.NetworkConf maps. The daemon of this phase has a real PolicyManager and its port mapping handler
 // shares the policy manager's (fake) iptables; about 40% of the pods carry host ports; a further goroutine delivers
 // policy / pod events and full syncs meanwhile (see concpm.go). The sequence / status / isolation monitors are the
 // same as in the sequential phases.
 func runConcurrent(run *evid.Run, env *runEnv, shard, goroutines, rounds int, journal func(v interface{})) {
+	coldBursts(run, env, shard, goroutines, journal)
 	rng := run.Rng("c12-conc-cfg", shard)
 	cfg := genStaticConf(rng, confOpts{nNets: 3 + rng.Intn(2), distinctTypes: true, sharedOnly: shard%4 != 3})
 	pw := newPolWorld()
